@@ -102,7 +102,7 @@ GenExc(seed, p) == IF Chance(seed, p, 2, 3) THEN <<>> ELSE <<NonEmptyEnv(seed, C
 
 \* outputs
 GenOutSeg(seed, p) ==
-  LET c == Pick(seed, p, 6) IN
+  LET c == Pick(seed, p, 7) IN
   CASE c <= 3 -> Ipa(Lits[Pick(seed, C(p, 1), Len(Lits))])
     [] c <= 5 -> Mx(GenSegMods(seed, C(p, 1)))
     [] OTHER  -> Mx(<<LET c2 == Pick(seed, C(p, 1), 3) IN IF c2 = 1 THEN GenLenMod(seed, C(p, 2)) ELSE IF c2 = 2 THEN GenStressMod(seed, C(p, 2)) ELSE GenToneMod(seed, C(p, 2))>>)
@@ -224,11 +224,22 @@ PlantWide(seed, r) ==
   IF r.inp[1].k = "empty" THEN PlantIns(r, Pick(seed, 910, 6))
   ELSE IF HasStruct(r.inp) /\ Chance(seed, 911, 2, 3) THEN [r EXCEPT !.inp = PlantInStructs(r.inp, Chance(seed, 912, 1, 2))]
   ELSE PlantAtPos(r, Pick(seed, 913, Len(r.inp) + 1))
-GenPlanted(seed) == LET c == Pick(seed, 900, 6) IN
+\* the planted literal may carry a modifier block (`q:[-stress]`, `q:[+long]`): a literal with modifiers is matched through its feature matrix, not by
+\* equality, and the words hold near-misses of q (the same segment with a secondary articulation, voiced, aspirated ...), never q itself
+RECURSIVE DressEl(_, _)
+DressEl(e, fm) == IF e = Ipa(PLANT) THEN WithMods(e, fm)
+                  ELSE IF e.k \in {"set", "struct", "opt"} THEN [e EXCEPT !.items = [i \in 1..Len(e.items) |-> DressEl(e.items[i], fm)]] ELSE e
+DressSeq(sq, fm) == [i \in 1..Len(sq) |-> DressEl(sq[i], fm)]
+DressEnvs(envs, fm) == [i \in 1..Len(envs) |-> Env(DressSeq(envs[i].b, fm), DressSeq(envs[i].a, fm))]
+DressPlant(r, fm) == [r EXCEPT !.inp = DressSeq(r.inp, fm), !.ctx = DressEnvs(r.ctx, fm)]
+GenPlanted0(seed) == LET c == Pick(seed, 900, 6) IN
                     IF c = 1 THEN PlantAtEnd(GenVarInput(seed, 901))
                     ELSE IF c = 2 THEN PlantAtEnd(GenAny(seed))
                     ELSE IF c = 3 THEN Plant(GenAny(seed))
                     ELSE PlantWide(seed, GenAny(seed))
+GenPlanted(seed) == IF Chance(seed, 920, 1, 3)
+                    THEN DressPlant(GenPlanted0(seed), <<IF Chance(seed, 921, 1, 2) THEN GenStressMod(seed, 922) ELSE IF Chance(seed, 923, 1, 2) THEN GenLenMod(seed, 922) ELSE <<"f", 12, FALSE>>>>)
+                    ELSE GenPlanted0(seed)
 
 (* C14: rules classified by what their output may touch, with arbitrary environments and exceptions *)
 PlainFeatMx(seed, p) == Mx(GenSegMods(seed, p))
@@ -323,14 +334,17 @@ GenShorthand(seed) ==
   CASE c = 1 ->     \* condensed rule: k sub-rules; each of inputs / outputs / environments is either given k times or once (broadcast)
         LET k == 1 + Pick(seed, 4, 2)
             shO == Chance(seed, 6, 1, 3)  shC == Chance(seed, 7, 1, 2)  hasC == Chance(seed, 8, 2, 3)
-            shI == Chance(seed, 5, 1, 3) /\ ~(shO /\ (shC \/ ~hasC))      \* at least one part is given k times, otherwise the line is a single rule
+            hasE == Chance(seed, 14, 1, 2)  shE == Chance(seed, 15, 1, 2)                 \* the exception block is broadcast (or given k times) on its own
+            shI == Chance(seed, 5, 1, 3) /\ ~(shO /\ (shC \/ ~hasC) /\ (shE \/ ~hasE))      \* at least one part is given k times, otherwise the line is a single rule
             inpOf(i) == <<PlainSeg(seed, C(10, IF shI THEN 1 ELSE i))>>
             outOf(i) == <<GenOutSeg(seed, C(11, IF shO THEN 1 ELSE i))>>
             ctxOf(i) == IF hasC THEN <<SimpleEnv(seed, C(12, IF shC THEN 1 ELSE i))>> ELSE <<>>
+            excOf(i) == IF hasE THEN <<SimpleEnv(seed, C(13, IF shE THEN 1 ELSE i))>> ELSE <<>>
         IN [kind |-> "condensed", short |-> <<>>,
             parts |-> [inps |-> [i \in 1..(IF shI THEN 1 ELSE k) |-> inpOf(i)], outs |-> [i \in 1..(IF shO THEN 1 ELSE k) |-> outOf(i)],
-                       ctxs |-> IF hasC THEN [i \in 1..(IF shC THEN 1 ELSE k) |-> ctxOf(i)[1]] ELSE <<>>],
-            long |-> [i \in 1..k |-> Rule(inpOf(i), outOf(i), ctxOf(i), <<>>)]]
+                       ctxs |-> IF hasC THEN [i \in 1..(IF shC THEN 1 ELSE k) |-> ctxOf(i)[1]] ELSE <<>>,
+                       excs |-> IF hasE THEN [i \in 1..(IF shE THEN 1 ELSE k) |-> excOf(i)[1]] ELSE <<>>],
+            long |-> [i \in 1..k |-> Rule(inpOf(i), outOf(i), ctxOf(i), excOf(i))]]
     [] c = 2 ->     \* special environment _,X
         LET x == [i \in 1..Pick(seed, 4, 2) |-> IF Chance(seed, C(5, i), 1, 5) /\ i = 1 THEN WB ELSE PlainSeg(seed, C(6, i))]
             inp == <<PlainSeg(seed, 7)>>  out == <<GenOutSeg(seed, 8)>>
